@@ -630,8 +630,12 @@ class CommandPipeline:
         """
         if self.ended:
             return
-        self._end(tee_output=tee_output)
-        self._return_terminal()
+        try:
+            self._end(tee_output=tee_output)
+        finally:
+            # also when _end() raises (undecodable output, KeyboardInterrupt):
+            # the shell must not stay a background process on its own terminal
+            self._return_terminal()
 
     def _end(self, tee_output):
         """Waits for the command to complete and then runs any closing and
